@@ -380,6 +380,32 @@ fn special_quantities() -> impl Strategy<Value = String> {
     })
 }
 
+/// Calls of every built-in function, nested up to three deep, on arguments at the edges of the numeric types
+/// they convert to: magnitudes around the largest f64 (sin/cos go through floating point), digits arguments
+/// and exponents that do not fit an i32 (so the call fails with a bad-argument error somewhere inside), zero,
+/// tiny values, values with units, wrong arities.
+fn builtin_calls() -> impl Strategy<Value = String> {
+    let name = || prop_oneof![Just("sin"), Just("cos"), Just("round"), Just("floor"), Just("ceil"), Just("nosuch")];
+    let edge = prop_oneof![
+        Just("0"), Just("-0.0"), Just("1e308"), Just("1.8e308"), Just("1e309"), Just("-1e400"), Just("1e999"), Just("1e-999"), Just("-1e-400"), Just("0.5"),
+        Just("1e200 * 1e200"), Just("2 ^ 64"), Just("1 / 3"), Just("3 m"), Just("1e309 km"), Just("-273.15 °C"), Just("100%"),
+        Just("(1 m) ^ 1e10"), Just("(2 s) ^ 2147483648"), Just("(1 kg) ^ -1e10"),
+    ];
+    let digits = prop_oneof![Just("1e10"), Just("3e9"), Just("2147483648"), Just("-2147483649"), Just("1e400"), Just("2"), Just("-2"), Just("0.5"), Just("1 m"), Just("1e-5")];
+    let leaf = (name(), edge, prop::option::weighted(0.5, digits)).prop_map(|(f, x, d)| match d {
+        Some(d) => format!("{}({}, {})", f, x, d),
+        None => format!("{}({})", f, x),
+    });
+    leaf.prop_recursive(3, 8, 2, move |inner| {
+        prop_oneof![
+            3 => (name(), inner.clone()).prop_map(|(f, a)| format!("{}({})", f, a)),
+            2 => (name(), inner.clone(), prop_oneof![Just("1"), Just("-2"), Just("1e10"), Just("2147483648")]).prop_map(|(f, a, d)| format!("{}({}, {})", f, a, d)),
+            1 => (inner.clone(), prop_oneof![Just(" + "), Just(" * "), Just(" / ")], inner.clone()).prop_map(|(a, o, b)| format!("{}{}{}", a, o, b)),
+            1 => (name(), inner.clone(), inner.clone()).prop_map(|(f, a, b)| format!("{}({}, {})", f, a, b)),
+        ]
+    })
+}
+
 /// Towers of two-digit powers over a quantity whose value is 0, 1 or -1 (so the exact answer stays tiny
 /// whatever the exponents are): `(((1 m^12)^-34)^56)^78`.  Not sanitised — the unit's power may leave i32.
 fn power_tower() -> impl Strategy<Value = String> {
@@ -426,7 +452,7 @@ fn tower_products() -> impl Strategy<Value = String> {
 }
 
 pub fn run_check(ctx: &Ctx, child: bool) {
-    ctx.set_rule("inputs: arbitrary Unicode strings, printable-ASCII noise, token soups of up to 40 tokens (numbers, vocabulary words, operators, parentheses, braces, commas, %, to, function names, fact words, multi-byte and unknown characters, Unicode blanks) well-formed expressions with one or two token mutations, products/quotients/sums/casts of quantities at the special points of the unit system (absolute zero on every scale, zero, tiny and huge magnitudes), towers of up to seven two-digit powers over a quantity of value 0, 1 or -1 (the unit's power may leave i32; the value stays tiny) and sums/products/quotients of two such towers; every input is passed through a sanitiser that enforces the stated bounds (power operator followed by an integer of <= 2 digits with product <= 1000 — an operator with nothing that could be a value behind it is left dangling as written — <= 2 digits after a comma, literal exponents of <= 3 digits); oracle: no panic, parse succeeds, the result sequence ends, every value displays, every error has a message and a range inside the input on char boundaries; run in a debug-assertion build and in a release build, plus a sample through the real binary; non-trivial = >= 3 tokens and at least one result that is not a plain syntax error; distinct by input text (per profile)");
+    ctx.set_rule("inputs: arbitrary Unicode strings, printable-ASCII noise, token soups of up to 40 tokens (numbers, vocabulary words, operators, parentheses, braces, commas, %, to, function names, fact words, multi-byte and unknown characters, Unicode blanks) well-formed expressions with one or two token mutations, calls of every built-in function nested up to three deep on arguments at the edges of f64 and i32 (1e308, 1e309, 1e999, digits and exponents beyond 2^31), products/quotients/sums/casts of quantities at the special points of the unit system (absolute zero on every scale, zero, tiny and huge magnitudes), towers of up to seven two-digit powers over a quantity of value 0, 1 or -1 (the unit's power may leave i32; the value stays tiny) and sums/products/quotients of two such towers; every input is passed through a sanitiser that enforces the stated bounds (power operator followed by an integer of <= 2 digits with product <= 1000 — an operator with nothing that could be a value behind it is left dangling as written — <= 2 digits after a comma, literal exponents of <= 3 digits); oracle: no panic, parse succeeds, the result sequence ends, every value displays, every error has a message and a range inside the input on char boundaries; run in a debug-assertion build and in a release build, plus a sample through the real binary; non-trivial = >= 3 tokens and at least one result that is not a plain syntax error; distinct by input text (per profile)");
     ctx.assume("a watchdog (30 s per case) turns a hang into exit 2 (inconclusive), never a violation");
     let corpus: Vec<(String, StrCase)> = load_corpus("C11");
     let cases: Vec<StrCase> = corpus.into_iter().map(|c| c.1).collect();
@@ -435,6 +461,7 @@ pub fn run_check(ctx: &Ctx, child: bool) {
     ctx.run_gen("soup", || soup().prop_map(|input| StrCase { input }), n, |c| check_str(shared_db(), &c.input), |c| to_json(c));
     ctx.run_gen("mutated-well-formed", || mutated().prop_map(|input| StrCase { input }), n / 2, |c| check_str(shared_db(), &c.input), |c| to_json(c));
     ctx.run_gen("special-quantities", || special_quantities().prop_map(|input| StrCase { input }), n / 8, |c| check_str(shared_db(), &c.input), |c| to_json(c));
+    ctx.run_gen("builtin-calls-at-type-edges", || builtin_calls().prop_map(|input| StrCase { input }), n / 8, |c| check_str(shared_db(), &c.input), |c| to_json(c));
     ctx.run_gen("unit-power-towers", || power_tower().prop_map(|input| StrCase { input }), n / 8, |c| check_str(shared_db(), &c.input), |c| to_json(c));
     ctx.run_gen("unit-power-tower-products", || tower_products().prop_map(|input| StrCase { input }), n / 8, |c| check_str(shared_db(), &c.input), |c| to_json(c));
     ctx.run_gen("ascii-noise", || "[ -~]{0,40}".prop_map(|s| StrCase { input: sanitize(&s) }), n / 4, |c| check_str(shared_db(), &c.input), |c| to_json(c));
